@@ -1241,3 +1241,87 @@ func neighborEntryCreatedOnlyWhenAbsent(c *core.Ctx, rule string) {
 	}
 	c.Check(n >= 1, rule, "stores into neighborManager.neighbors", 0, "none found")
 }
+
+// constructorCallsSeeInitialisedFields: newPeer builds the peer in steps (`p := &peer{…}`, then `p.ipv4 = …`,
+// `p.ipv6 = …`, …).  A helper that is handed p and reads one of those late-assigned fields must be called after the
+// assignment, on every path: called earlier it sees nil and, e.g., leaves the IPv6 add-path capability out of our OPEN
+// while the negotiation later enables add-path from the same (by then assigned) field — the two ends disagree on the
+// NLRI encoding.
+func constructorCallsSeeInitialisedFields(c *core.Ctx, rule string) {
+	f := c.MustFunc(srv + ".newPeer")
+	if f == nil {
+		return
+	}
+	c.Analysed(f)
+	g := c.P.CFG(f)
+	// the object under construction: the variable the function returns first
+	var obj types.Object
+	ast.Inspect(f.Decl.Body, func(nd ast.Node) bool {
+		if rs, ok := nd.(*ast.ReturnStmt); ok && len(rs.Results) == 2 && obj == nil {
+			if id, isId := core.Unparen(rs.Results[0]).(*ast.Ident); isId && id.Name != "nil" {
+				obj = core.ObjOf(f.Pkg, id)
+			}
+		}
+		return true
+	})
+	if obj == nil {
+		c.Check(false, rule, f.Name()+" returns the peer it builds", f.Decl.Pos(), "constructed object not identified")
+		return
+	}
+	// fields assigned after the literal
+	late := map[*types.Var][]*ast.AssignStmt{}
+	ast.Inspect(f.Decl.Body, func(nd ast.Node) bool {
+		as, ok := nd.(*ast.AssignStmt)
+		if !ok {
+			return true
+		}
+		for _, l := range as.Lhs {
+			if se, isSel := core.Unparen(l).(*ast.SelectorExpr); isSel && core.ObjOf(f.Pkg, se.X) == obj {
+				if fv := core.FieldOf(f.Pkg, se); fv != nil {
+					late[fv] = append(late[fv], as)
+				}
+			}
+		}
+		return true
+	})
+	n := 0
+	for _, call := range core.Calls(f.Pkg, f.Decl.Body, func(*types.Func) bool { return true }) {
+		callee := c.P.FnOf(core.Callee(f.Pkg, call))
+		if callee == nil || callee.Decl.Body == nil {
+			continue
+		}
+		gets := false
+		if se, ok := call.Fun.(*ast.SelectorExpr); ok && core.ObjOf(f.Pkg, se.X) == obj {
+			gets = true
+		}
+		for _, a := range call.Args {
+			if core.ObjOf(f.Pkg, a) == obj {
+				gets = true
+			}
+		}
+		if !gets {
+			continue
+		}
+		reads := c.P.ReadsTransitive(callee)
+		for fv, stores := range late {
+			if !reads[fv] {
+				continue
+			}
+			n++
+			isStore := func(nd ast.Node) bool {
+				for _, s := range stores {
+					if nd == ast.Node(s) {
+						return true
+					}
+				}
+				return false
+			}
+			// a store that can still happen after the call: the call ran on the unassigned field
+			isCall := func(nd ast.Node) bool { return core.NodeHas(nd, func(x ast.Node) bool { return x == ast.Node(call) }) }
+			bad := core.PathAvoidingFrom(g, isCall, func(ast.Node) bool { return false }, isStore)
+			c.Check(len(bad) == 0, rule, fmt.Sprintf("%s calls %s after %s.%s is assigned", f.Name(), callee.Obj.Name(), obj.Name(), fv.Name()), call.Pos(),
+				fmt.Sprintf("%s reads %s.%s, which newPeer assigns only later: the helper sees the zero value (nil) and what it derives from it (e.g. the add-path capability of our OPEN) disagrees with what the session later uses", callee.Obj.Name(), obj.Name(), fv.Name()))
+		}
+	}
+	c.Hold(rule, f.Name()+" helper calls that read late-assigned fields", f.Decl.Pos(), fmt.Sprintf("%d (call, field) pairs examined", n))
+}
